@@ -547,15 +547,14 @@ func readMsg(r io.Reader, v any) error {
 // handler side
 
 type invocation struct {
-	serial   int
-	reg      int
-	proto    protocol.ID
-	remote   peer.ID
-	done     bool // the request was read (completely, or up to EOF)
-	got      int
-	eof      bool
-	nonce    uint64
-	gotNonce bool
+	serial int
+	reg    int
+	proto  protocol.ID
+	remote peer.ID
+	done   bool // the request was read (completely, or up to EOF)
+	got    int
+	eof    bool
+	nonce  uint64 // valid when got == payloadLen
 }
 
 type hlog struct {
@@ -614,7 +613,7 @@ func handlerFor(r *reg, l *hlog) network.StreamHandler {
 		}
 		l.mu.Lock()
 		inv.done, inv.got, inv.eof = true, n, e.EOF
-		inv.nonce, inv.gotNonce = e.Nonce, n == payloadLen
+		inv.nonce = e.Nonce
 		l.mu.Unlock()
 		if err := writeMsg(s, e); err != nil {
 			s.Reset()
@@ -1174,9 +1173,9 @@ func TestNegotiation(t *testing.T) {
 // the random search): every listener configuration of a fixed list (no handler, exact,
 // prefix / path / semver / alias matchers, overlapping pairs) x every ordered request over
 // {X, Y} x every knowledge state over {X, Y} (+ "as identify left it") x the four host
-// pairings x every kind of first operation on the fresh stream (useKinds); each scenario
-// opens once with the handlers installed and once more after all of them were removed (so
-// remembered knowledge becomes stale).
+// pairings x every kind of first operation on the fresh stream (useKinds); every
+// combination opens once with the handlers installed and once more after all of them were
+// removed (so remembered knowledge becomes stale).
 func TestSmallExhaustive(t *testing.T) {
 	name := t.Name()
 	const X, Y = protocol.ID("/a/1.0.0"), protocol.ID("/a/1.1.0")
@@ -1206,7 +1205,18 @@ func TestSmallExhaustive(t *testing.T) {
 		for _, req := range reqs {
 			for _, kn := range knows {
 				for _, pr := range pairs {
-					for _, use := range useKinds {
+					// Fixed knowledge is re-established before every round, so the first-operation kinds
+					// share one host pair (one round each, first with the handlers installed, then again
+					// after their removal). Knowledge "as identify and earlier opens left it" evolves with
+					// every open, so there each kind gets a host pair of its own.
+					groups := [][]string{useKinds}
+					if kn.mode == "keep" {
+						groups = nil
+						for _, use := range useKinds {
+							groups = append(groups, []string{use})
+						}
+					}
+					for _, uses := range groups {
 						idx++
 						if !hx.Mine(idx) {
 							continue
@@ -1220,9 +1230,14 @@ func TestSmallExhaustive(t *testing.T) {
 								removes = append(removes, lop{Op: "remove", Pid: op.Pid})
 							}
 						}
-						sc.Rounds = []round{
-							{KnowMode: kn.mode, Know: kn.ids, Opens: []openSpec{{Req: req, Use: use, nonce: mix(uint64(idx) * 2)}}},
-							{Ops: removes, KnowMode: kn.mode, Know: kn.ids, Opens: []openSpec{{Req: req, Use: use, nonce: mix(uint64(idx)*2 + 1)}}},
+						for phase := 0; phase < 2; phase++ {
+							for k, use := range uses {
+								r := round{KnowMode: kn.mode, Know: kn.ids, Opens: []openSpec{{Req: req, Use: use, nonce: mix(uint64(idx)*64 + uint64(phase*len(uses)+k))}}}
+								if phase == 1 && k == 0 {
+									r.Ops = removes
+								}
+								sc.Rounds = append(sc.Rounds, r)
+							}
 						}
 						var oc *outcome
 						synctest.Test(t, func(t *testing.T) {
